@@ -106,3 +106,47 @@ def replay(inst, failures, kfdir, rundir, prop):
         json.dump(dict(property=prop, instance=inst.id, harness=inst.harness, entry=inst.entry, defs=inst.defs, cases=cases,
                        how="./vx replay %s" % path), fh, indent=1)
     return dict(path=path, confirmed=confirmed, unconfirmed=unconfirmed, summary=dict(cases=len(cases), confirmed=len(confirmed), unconfirmed=len(unconfirmed)))
+
+
+def build_native_harness(inst, kfdir, rundir):
+    nd = native_objects()
+    exe = os.path.join(rundir, "native-" + inst.id.replace("/", "_"))
+    if os.path.exists(exe):
+        return exe, None
+    hsrc = os.path.join(V.HARNESS_DIR, inst.harness)
+    cmd = ["g++"] + native_flags() + ["-I" + kfdir] + ["-D" + x for x in inst.defs] + \
+          ["-DVX_ENTRY=" + inst.entry, hsrc, os.path.join(V.HARNESS_DIR, "vx_native.cpp")] + \
+          sorted(glob.glob(os.path.join(nd, "*.o"))) + ["-Wl,--allow-multiple-definition", "-ldl", "-lpthread", "-lm", "-o", exe]
+    r = V.sh(cmd)
+    return exe, (r.stdout[-1500:] if r.returncode != 0 else None)
+
+def replay_witnesses(pairs, kfdir, rundir):
+    """pairs: [(inst, rec)] of passing instances; replays each witness assignment natively."""
+    if not pairs:
+        return dict(validated=0, mismatched=[])
+    native_objects()
+    def one(pr):
+        inst, rec = pr
+        exe, err = build_native_harness(inst, kfdir, rundir)
+        if err:
+            return (inst.id, "native build failed: " + err[-300:])
+        inp = os.path.join(rundir, "witness-%s.txt" % inst.id.replace("/", "_"))
+        with open(inp, "w") as fh:
+            for k, b in rec["witness_bits"].items():
+                fh.write("%s %d\n" % (k, int(b, 2)))
+        env = dict(os.environ, VX_INPUTS=inp, ASAN_OPTIONS="detect_leaks=0:exitcode=77", UBSAN_OPTIONS="halt_on_error=0")
+        try:
+            pr_ = subprocess.run([exe], env=env, stdout=subprocess.PIPE, stderr=subprocess.STDOUT, text=True, errors="replace", timeout=60)
+        except subprocess.TimeoutExpired:
+            return (inst.id, "timeout")
+        out = pr_.stdout
+        if "VX-ASSUME-VIOLATED" in out:
+            return (inst.id, "assumption violated natively (trace does not satisfy the harness assumptions)")
+        failed = re.findall(r"^VX-ASSERT-FAILED: (.*)$", out, re.M)
+        if failed or pr_.returncode != 0 or "VX-DONE" not in out:
+            return (inst.id, "rc=%s failed=%s %s" % (pr_.returncode, failed[:3], out[-200:].replace("\n", " | ")))
+        return None
+    with ThreadPoolExecutor(max_workers=max(2, V.NCPU // 2)) as ex:
+        res = list(ex.map(one, pairs))
+    bad = [r for r in res if r]
+    return dict(validated=len(res) - len(bad), mismatched=bad)
